@@ -350,6 +350,46 @@ fn run(args: Args) -> Report {
                 }
             }
         }
+        // W3c: nesting-bound sweep: every recursion unit x every depth around the bound x
+        // every tail lexeme (and none), unclosed; plus towers of randomly mixed units.
+        {
+            let mut tails: Vec<&str> = vec![""];
+            tails.extend(LEXEMES_40.iter().copied());
+            let mut n = 0u64;
+            for (ui, (prefix, unit)) in textgen::RECURSION_UNITS.iter().enumerate() {
+                for d in 118usize..=134 {
+                    k += 1;
+                    if k % args.nshards != args.shard {
+                        continue;
+                    }
+                    let mut base = String::with_capacity(prefix.len() + unit.len() * d + 8);
+                    base.push_str(prefix);
+                    for _ in 0..d {
+                        base.push_str(unit);
+                    }
+                    for tail in &tails {
+                        let text = format!("{base}{tail}");
+                        m.case("bound-sweep", &text);
+                        n += 1;
+                    }
+                    m.rep.see("bound_sweep_units", format!("{}:{}", ui, unit.trim()));
+                }
+            }
+            let mixed = if args.thorough() { 20_000 } else { 1_500 };
+            for _ in 0..mixed {
+                let d = r.range(110, 140);
+                let (prefix, _) = textgen::RECURSION_UNITS[r.below(36)];
+                let mut text = String::from(prefix);
+                for _ in 0..d {
+                    // stay within the expression/pattern units of the `fn f() { ` context
+                    text.push_str(textgen::RECURSION_UNITS[r.below(36)].1);
+                }
+                text.push_str(tails[r.below(tails.len())]);
+                m.case("bound-sweep-mixed", &text);
+                n += 1;
+            }
+            m.rep.count("cases[bound-sweep]", n);
+        }
         for c in CHAINS {
             for n in [10usize, 130, 1000] {
                 k += 1;
